@@ -63,8 +63,10 @@ Definition uniq (l : list str) : list str := uniq_from [] l.
 
 Definition group (k : str) nets : list (net P) := filter (fun nt => str_eqb (key_name nt) k) nets.
 
+(* the bits a group gives: only nets that ARE bits contribute (a scalar net sharing the key of a bus
+   - finding C05-K13 - is no bit of it: a cable holding its pins on some wire is not the meaning) *)
 Definition bits_of (grp : list (net P)) : list (N * list P) :=
-  map (fun nt => (match n_index nt with Some i => i | None => 0%N end, n_pins nt)) grp.
+  flat_map (fun nt => match n_index nt with Some i => [(i, n_pins nt)] | None => [] end) grp.
 
 Definition denote_conn nets (s : list (entry P)) : Prop :=
   map (@e_name P) s = uniq (map key_name nets) /\
